@@ -28,7 +28,7 @@ CLAIMED = {
 }
 
 CLAIMED.update({
-    "C10": dict(engine="fsim-faults + file-e2e", design="5/C10", level="fault_enumeration",
+    "C10": dict(engine="fsim-faults + fsim-realfs + file-e2e", design="5/C10", level="fault_enumeration",
         technique="deterministic simulation with fault injection: per generated batch history, every filesystem call index x every fault kind (error, EINTR, short/zero/torn write, crash before/after/mid-write with crash-recovery variants) plus sampled multi-fault sequences, against a durable-view oracle",
         text="For each seeded batch history the real emit_file worker runs over an in-memory filesystem that separates written from synced content and volatile from durable directory entries. One fault-free pass counts the calls (strict oracle), then a single fault of every applicable kind is injected at every call index (exhaustive over single faults for that history), then 2-4-fault sequences are sampled. After every acknowledged batch each event must be a complete record in what the worst-case crash would leave; after every call and crash every record of every file must be an event, empty, or a truncated prefix ending exactly where a write was interrupted. Fault enumeration per sampled history is the right level: the property quantifies over call index x fault kind, which is finite per history and is covered completely; histories themselves are sampled.",
         note="Trusted: the filesystem model (a directory entry is durable only after sync_parent; un-synced suffixes may be lost in any part; deletions not followed by a directory sync may be undone); the harness re-submits a retry remainder like the channel does, a bounded number of times; events whose file the set's own retention deleted are exempt from the durability claim. StdFilesystem and real disks are not exercised under faults (fsim-realfs under C11 compares the model with them fault-free)."),
@@ -152,7 +152,7 @@ def main():
              "kind_free_text": "same engine, event-shape x signal-subset workload with routing oracle"},
             {"name": "fsim-faults", "path": "/verif/sim/src/fsim.rs", "serves_properties": ["C10"],
              "kind_free_text": "real emit_file worker over a fault-injecting in-memory filesystem (written vs synced, durable vs volatile entries); single-fault enumeration per generated history + sampled multi-fault sequences"},
-            {"name": "fsim-realfs", "path": "/verif/sim/src/fs_diff.rs", "serves_properties": ["C11"],
+            {"name": "fsim-realfs", "path": "/verif/sim/src/fs_diff.rs", "serves_properties": ["C10", "C11"],
              "kind_free_text": "model fidelity: each generated fault-free plan runs through the real worker over SimFs and over the production StdFilesystem (scratch directory, same injected clock and rng); directory contents and batch outcomes must agree after every step"},
             {"name": "fsim-rolling", "path": "/verif/sim/src/fsim.rs", "serves_properties": ["C11"],
              "kind_free_text": "real emit_file worker over the in-memory filesystem with scripted clock/rng against a reference rolling policy"},
